@@ -5,6 +5,13 @@ package c04
 // nothing, as long as the failure (same first differing observable) persists.
 
 func variants(ops []Op) [][]Op {
+	if isHand(ops) { // hand-assembled script: shrink its body
+		var out [][]Op
+		for _, v := range variants(ops[0].Body) {
+			out = append(out, []Op{{K: 'S', Body: v}})
+		}
+		return out
+	}
 	var out [][]Op
 	for i := range ops {
 		// delete op i
@@ -30,7 +37,35 @@ func variants(ops []Op) [][]Op {
 				v := v
 				out = append(out, with(func(o *Op) { o.H = v }))
 			}
-		case 'r', '$':
+		case 'h': // a handler: one of its parts alone, or a smaller part
+			out = append(out, repl(o.Body))
+			if o.HasC {
+				out = append(out, repl(o.H))
+			}
+			if o.HasF {
+				out = append(out, repl(o.Fin))
+			}
+			for _, v := range variants(o.Body) {
+				v := v
+				out = append(out, with(func(o *Op) { o.Body = v }))
+			}
+			for _, v := range variants(o.H) {
+				v := v
+				out = append(out, with(func(o *Op) { o.H = v }))
+			}
+			for _, v := range variants(o.Fin) {
+				v := v
+				out = append(out, with(func(o *Op) { o.Fin = v }))
+			}
+		case '(', 'I':
+			if o.K == '(' {
+				out = append(out, repl(o.Body))
+			}
+			for _, v := range variants(o.Body) {
+				v := v
+				out = append(out, with(func(o *Op) { o.Body = v }))
+			}
+		case 'r', '$', 'w':
 			for _, v := range variants(o.Body) {
 				v := v
 				out = append(out, with(func(o *Op) { o.Body = v }))
